@@ -13,10 +13,15 @@
   total order), so the round trip is exact: import of the export returns the very same store and therefore
   re-exports to the same genesis (`c17_roundtrip_exact`).
 -/
+import Orbiter.Expect
 import Orbiter.Lemmas.Reach
 import Orbiter.Lemmas.Sorted
 namespace Orbiter.C17
 open Orbiter
+
+/-- Coverage obligation: the genesis document and the entries it carries have exactly the fields the model's `Genesis`
+was written against — a new piece of state that export/import would have to carry shows here first. -/
+theorem pin_genesis_fields : Gen.genesisFields = modelGenesisFields := by decide
 
 /-- After any history from a state satisfying the invariant (in particular from the empty store), the
 store satisfies the invariant. -/
